@@ -376,17 +376,25 @@ def candidates (P : NumPr) (st : MSt) (force : Bool) (rel : Bool) (r : Rewritten
 def choose (ps : PState) (cur alt : OutGroup) : OutGroup :=
   if (emitGroup ps alt).2.length < (emitGroup ps cur).2.length then alt else cur
 
+/-- the later pairs of a moveto are linetos -/
+def groupKind (k0 : Kind) (first : Bool) : Kind := if !first && k0 == .M then .L else k0
+
+/-- first group of a moveto instruction: the letter is always printed and the subpath start is set -/
+def isMoveFirst (k0 : Kind) (first : Bool) : Bool := first && k0 == .M
+
+/-- state after printing group `g` and moving to the rewritten end point -/
+def advance (st : MSt) (r : Rewritten) (g : OutGroup) (setStart : Bool) : MSt :=
+  { st with c := r.c, q := r.q, x := r.ax, y := r.ay, ps := (emitGroup st.ps g).1, out := g :: st.out,
+            x0 := if setStart then r.ax else st.x0, y0 := if setStart then r.ay else st.y0 }
+
 /-- one iteration of the loop in `copyInstruction`.
     `k0` = the instruction's command, `first` = `i == 0`, `single` = `i == 0 && i + di >= n` -/
 def groupStep (P : NumPr) (st : MSt) (k0 : Kind) (rel : Bool) (first single : Bool) (cs : List Coord) : MSt :=
-  let k := if !first && k0 == .M then .L else k0
-  let r := rewrite st k rel single cs
+  let r := rewrite st (groupKind k0 first) rel single cs
   if r.skip then { st with c := r.c, q := r.q }
   else
-    let cand := candidates P st (first && k0 == .M) rel r
-    let g := choose st.ps cand.1 cand.2
-    let st' : MSt := { st with c := r.c, q := r.q, x := r.ax, y := r.ay, ps := (emitGroup st.ps g).1, out := g :: st.out }
-    if first && k0 == .M then { st' with x0 := r.ax, y0 := r.ay } else st'
+    let cand := candidates P st (isMoveFirst k0 first) rel r
+    advance st r (choose st.ps cand.1 cand.2) (isMoveFirst k0 first)
 
 /-- split into chunks of `di` (the caller has checked divisibility) -/
 def chunks (di : Nat) : Nat → List Coord → List (List Coord)
